@@ -318,6 +318,12 @@ func c14FixOps() []fixOp {
 			}
 		}
 	}
+	// records whose target digits run into the next record's day so that a year key also occurs across the record
+	// boundary (…2022 0202|2022 0101…): lookups by year/month must still find the aligned records
+	edge = append(edge,
+		fixOp{"add-record-whose-target-runs-into-the-key-2022", nil, "202112311120220202"},
+		fixOp{"add-record-whose-target-runs-into-the-key-2012", nil, "201112311120120201"},
+		fixOp{"add-record-whose-target-runs-into-the-key-2020", nil, "201912311120200120"})
 	return append(edge, []fixOp{
 		{"add-records-with-11th-and-12th-name", ext12, "20311111:120311111" + "20311201;120311201"},
 		{"replace-record-with-11th-name", ext12, "20311111;020311112"},
